@@ -360,6 +360,93 @@ func judge(r *vh.Run, res *result) {
 		return
 	}
 
+	// ---- clause 1: at most one final acknowledgement per delivery (runs without connection kills)
+	type po struct {
+		p   int32
+		off int64
+	}
+	// offsets for which some member sent a final acknowledgement twice: the duplicate lands on whatever
+	// acquisition of the offset is current at the broker, so what happens to that offset afterwards
+	// (an early release, two state objects in one member) is a consequence of that finding and is not
+	// judged again under the other clauses
+	tainted := map[po]bool{}
+	{
+		type key struct {
+			m   string
+			p   int32
+			off int64
+		}
+		type st struct {
+			finals   int
+			listener int
+			first    string
+		}
+		state := map[key]*st{}
+		for _, b := range blog {
+			for p, bs := range b.Acks {
+				for _, a := range bs {
+					for o := a.First; o <= a.Last; o++ {
+						t := a.typeAt(o)
+						if t < 1 || t > 3 {
+							continue
+						}
+						s := state[key{b.Member, p, o}]
+						if s == nil || s.listener != b.Listener {
+							if kills == 0 {
+								r.Count("final_ack_without_matching_acquisition_dontcare", 1)
+							}
+							continue
+						}
+						s.finals++
+						if s.finals >= 2 {
+							tainted[po{p, o}] = true
+						}
+						if kills != 0 {
+							continue // a resend after an ambiguous connection kill is not judged
+						}
+						r.Count("final_acks_judged", 1)
+						if s.finals == 1 {
+							s.first = b.String()
+						} else {
+							// the application's calls on this offset: a renew followed by a terminal status (explicit,
+							// or the auto-accept of the next poll) is the window documented at shareAckState (a drain
+							// takes the renew entry, the terminal ack re-appends the state, both requests then read
+							// the terminal status)
+							sig := "final acknowledgement sent twice for one delivery"
+							var ds []*delivery
+							if m := members[b.Member]; m != nil {
+								for _, d := range m.Deliveries {
+									if d.P != p || d.Offset != o {
+										continue
+									}
+									ds = append(ds, d)
+									for _, a := range d.Acks {
+										if a.Status == 4 {
+											sig = sigDoubleRenew
+										}
+									}
+								}
+							}
+							r.Violation(sig,
+								wit(fmt.Sprintf("member %s partition %d offset %d: final acknowledgement number %d since the broker last acquired the offset for this member", b.Member, p, o, s.finals),
+									map[string]any{"first": s.first, "again": b.String(), "application_calls": ds, "requests": tail(b.Member, p, b.Clock)}))
+						}
+					}
+				}
+			}
+			for p, rs := range b.Acq {
+				for _, a := range rs {
+					for o := a.First; o <= a.Last; o++ {
+						state[key{b.Member, p, o}] = &st{listener: b.Listener}
+					}
+				}
+			}
+		}
+	}
+	if kills != 0 {
+		r.Count("scenarios_with_kills_clause1_not_judged", 1)
+	}
+
 	// With connection kills a member can hold two state objects for one offset (the delivery of the
 	// old session and the one of the new session); an acknowledgement of the old one can be sent in
 	// the new session (equal epoch numbers are not told apart) and lands on the new acquisition.
@@ -376,7 +463,12 @@ func judge(r *vh.Run, res *result) {
 			nDeliv[mpo{m.Name, d.P, d.Offset}]++
 		}
 	}
-	unambiguous := func(d *delivery) bool { return kills == 0 || nDeliv[mpo{d.Member, d.P, d.Offset}] == 1 }
+	unambiguous := func(d *delivery) bool {
+		if tainted[po{d.P, d.Offset}] {
+			return false
+		}
+		return kills == 0 || nDeliv[mpo{d.Member, d.P, d.Offset}] == 1
+	}
 
 	var nFlushJudged, nConfirmed, nAutoJudged, nCloseJudged, nFlushAcksJudged int
 	for _, m := range res.Members {
@@ -469,75 +561,6 @@ func judge(r *vh.Run, res *result) {
 				}
 			}
 		}
-	}
-
-	// ---- clause 1: at most one final acknowledgement per delivery (runs without connection kills)
-	if kills == 0 {
-		type key struct {
-			m   string
-			p   int32
-			off int64
-		}
-		type st struct {
-			finals   int
-			listener int
-			first    string
-		}
-		state := map[key]*st{}
-		for _, b := range blog {
-			for p, bs := range b.Acks {
-				for _, a := range bs {
-					for o := a.First; o <= a.Last; o++ {
-						t := a.typeAt(o)
-						if t < 1 || t > 3 {
-							continue
-						}
-						s := state[key{b.Member, p, o}]
-						if s == nil || s.listener != b.Listener {
-							r.Count("final_ack_without_matching_acquisition_dontcare", 1)
-							continue
-						}
-						s.finals++
-						r.Count("final_acks_judged", 1)
-						if s.finals == 1 {
-							s.first = b.String()
-						} else {
-							// the application's calls on this offset: a renew followed by a terminal status (explicit,
-							// or the auto-accept of the next poll) is the window documented at shareAckState (a drain
-							// takes the renew entry, the terminal ack re-appends the state, both requests then read
-							// the terminal status)
-							sig := "final acknowledgement sent twice for one delivery"
-							var ds []*delivery
-							if m := members[b.Member]; m != nil {
-								for _, d := range m.Deliveries {
-									if d.P != p || d.Offset != o {
-										continue
-									}
-									ds = append(ds, d)
-									for _, a := range d.Acks {
-										if a.Status == 4 {
-											sig = sigDoubleRenew
-										}
-									}
-								}
-							}
-							r.Violation(sig,
-								wit(fmt.Sprintf("member %s partition %d offset %d: final acknowledgement number %d since the broker last acquired the offset for this member", b.Member, p, o, s.finals),
-									map[string]any{"first": s.first, "again": b.String(), "application_calls": ds, "requests": tail(b.Member, p, b.Clock)}))
-						}
-					}
-				}
-			}
-			for p, rs := range b.Acq {
-				for _, a := range rs {
-					for o := a.First; o <= a.Last; o++ {
-						state[key{b.Member, p, o}] = &st{listener: b.Listener}
-					}
-				}
-			}
-		}
-	} else {
-		r.Count("scenarios_with_kills_clause1_not_judged", 1)
 	}
 
 	// ---- clause 3b: left unacknowledged at Close => released, deliverable again
